@@ -41,8 +41,8 @@ def design_level(ctx, quick):
     """Invariants / liveness / wire format on the specifications themselves."""
     d = ctx.scratch("model")
     # the repaired machine keeps everything
-    for nc, cap, alpha in ([(2, 2, FULL), (3, 1, "{1, 6, 7}")] if quick else
-                           [(2, 2, FULL), (3, 1, FULL), (3, 2, "{1, 6, 7}"), (4, 1, "{1, 7}")]):
+    for nc, cap, alpha in ([(2, 2, "{1, 3, 4, 7, 8}"), (3, 1, "{1, 7}")] if quick else
+                           [(2, 2, FULL), (3, 1, "{1, 3, 4, 7, 8}"), (3, 2, "{1, 6, 7}"), (4, 1, "{7}")]):
         hub_cfg(os.path.join(d, "R.cfg"), nc, cap, 0, "repaired", alpha, "inv")
         r = tlc(ctx, d, "RoomHub", "R.cfg")
         if r.rc != 0:
@@ -61,8 +61,8 @@ def design_level(ctx, quick):
         if r.rc != 12:
             raise core.Infra("RoomHub (pinned) keeps %s: the model lost its teeth" % inv)
     # liveness: a receiving writePump gets the id
-    for nc, cap in ([(2, 2)] if quick else [(2, 2), (3, 2)]):
-        hub_cfg(os.path.join(d, "L.cfg"), nc, cap, 0, "repaired", "{1, 7}", "live")
+    for nc, cap, alpha in ([(2, 2, "{1, 7}")] if quick else [(2, 2, "{1, 7}"), (3, 2, "{7}")]):
+        hub_cfg(os.path.join(d, "L.cfg"), nc, cap, 0, "repaired", alpha, "live")
         r = tlc(ctx, d, "RoomHub", "L.cfg")
         if r.rc != 0:
             raise core.Infra("RoomHub liveness EventuallyId fails (NC=%d): %s" % (nc, r.violated))
@@ -101,8 +101,9 @@ def drop_prefixes(cases):
 def generate(ctx, vh, quick, rnd):
     d = ctx.scratch("gen")
     cases = []
-    plan = [(2, 1, 5, FULL), (2, 2, 5, "{1, 3, 7, 9}"), (3, 1, 4, "{1, 4, 7, 8}")] if quick else \
-           [(2, 1, 7, FULL), (2, 2, 6, FULL), (3, 1, 6, "{1, 3, 4, 7, 8}"), (3, 2, 5, "{1, 7, 9}"), (1, 2, 5, "{1, 2, 3, 4, 5, 6, 7}")]
+    plan = [(2, 1, 5, "{1, 3, 4, 7, 8, 9}"), (2, 2, 4, "{1, 3, 7, 9}"), (3, 1, 4, "{1, 4, 7}"), (1, 2, 3, "{2, 3, 5, 6}")] if quick else \
+           [(2, 1, 6, "{1, 3, 4, 7, 8, 9}"), (2, 2, 6, "{1, 3, 4, 7, 9}"), (3, 1, 5, "{1, 3, 4, 7, 8}"), (3, 2, 5, "{1, 7, 9}"),
+            (1, 2, 5, "{1, 2, 3, 4, 5, 6, 7}")]
     for nc, cap, depth, alpha in plan:
         hub_cfg(os.path.join(d, "G.cfg"), nc, cap, depth, "repaired", alpha, "bfs")
         r = tlc(ctx, d, "RoomHub", "G.cfg")
@@ -181,7 +182,10 @@ def judge(ctx, vh, cases, name):
     tp = os.path.join(d, "trace.ndjson")
     core.run_vh(vh, ["room-exec", "-in", cp, "-out", tp], timeout=1800)
     raw = open(tp).readlines()
-    res = core.validate_sharded(ctx, name, "TraceRoom", "TraceRoom.cfg", raw, is_boundary=boundary, timeout=2400, heap="4g")
+    # many small shards: a shard's whole trace is held in memory by TLC
+    nsh = core.NCPU if len(raw) < 150000 else 4 * core.NCPU
+    res = core.validate_sharded(ctx, name, "TraceRoom", "TraceRoom.cfg", raw, nshards=nsh, is_boundary=boundary, timeout=2400,
+                                heap="4g")
     findings, summary = [], {}
     for sh, r in res:
         got_summary = False
@@ -194,7 +198,10 @@ def judge(ctx, vh, cases, name):
                     summary[k] = summary.get(k, 0) + n
         if not got_summary:
             raise core.Infra("a trace shard of %s printed no summary" % name)
-    ctx.traces += len(cases)
+    skipped = sum(json.loads(ln)["n"] for ln in raw if ln.startswith('{"k":"skipped"'))
+    if skipped:
+        ctx.extra["hub_cases_not_run_after_repeated_hangs"] = skipped
+    ctx.traces += len(cases) - skipped
     ctx.evaluations += len(raw)
     return findings, summary, raw
 
@@ -262,7 +269,7 @@ def run(ctx):
             "state_frames_with_players", "closed_seen", "first_is_id", "codec_state_in_domain", "codec_ori", "codec_id"]
     dead = sum(1 for ln in raw if ln.startswith('{"k":"end"') and '"dead":true' in ln)
     ctx.extra["cases_in_which_the_hub_died"] = dead
-    if dead == 0:
+    if dead == 0 and "hub_cases_not_run_after_repeated_hangs" not in ctx.extra:
         missing = [k for k in need if summary.get(k, 0) == 0]
         if missing:
             raise core.Infra("never exercised on the real hub (vacuous): %s" % ", ".join(missing))
@@ -295,7 +302,7 @@ def run(ctx):
 def selftest(ctx, vh):
     """Corrupt one logged field of an accepted trace; TLC must reject exactly there."""
     d = ctx.scratch("selftest")
-    case = {"kind": "hub", "n": 2, "cap": 2, "tag": "selftest", "ev": [
+    case = {"kind": "hub", "n": 2, "cap": 3, "tag": "selftest", "ev": [
         {"op": "register", "c": 1, "a": 0}, {"op": "register", "c": 2, "a": 0}, {"op": "update", "c": 1, "a": 1},
         {"op": "tick", "c": 0, "a": 0}, {"op": "tick", "c": 0, "a": 0}, {"op": "recv", "c": 1, "a": 0},
         {"op": "recv", "c": 1, "a": 0}, {"op": "unregister", "c": 2, "a": 0}]}
